@@ -93,7 +93,7 @@ package random
 //@ func NewChacha20PRG mode int props C14 C09
 //@ assigns nothing
 //@ ensures [bad-lengths] (len(seed) != 32 || len(customizer) > 12) ==> result0 == nil && result1 != nil
-//@ ensures [ok] len(seed) == 32 && len(customizer) <= 12 ==> result1 == nil && result0 != nil && fresh(result0) && coreInv(result0.core) && result0.core.bytesCounter == 0 && prgInv(&result0.genericPRG) && typeis(result0.genericPRG.randCore, *chachaCore) && unbox(result0.genericPRG.randCore, *chachaCore) == result0.core
+//@ ensures [ok] len(seed) == 32 && len(customizer) <= 12 ==> result1 == nil && result0 != nil && fresh(result0) && fresh(result0.core) && coreInv(result0.core) && result0.core.bytesCounter == 0 && prgInv(&result0.genericPRG) && typeis(result0.genericPRG.randCore, *chachaCore) && unbox(result0.genericPRG.randCore, *chachaCore) == result0.core
 //@ ensures [key] len(seed) == 32 && len(customizer) <= 12 ==> forall(k, 0, 32, result0.core.seed[k] == seed[k]) && forall(k, 0, 12, result0.core.customizer[k] == ite(k < len(customizer), customizer[k], 0))
 
 //@ func RestoreChacha20PRG mode int props C14 C09
@@ -104,3 +104,6 @@ package random
 //@ ensures [resume-pos] len(stateBytes) == 52 && le64(stateBytes[44:52]) < 274877906944 ==> result0.core.cipher.pos == result0.core.bytesCounter
 //@ ensures [resume-stream] len(stateBytes) == 52 ==> result0.core.cipher.sid == chachaStream(result0.core.seed[:], result0.core.customizer[:])
 //@ ensures [resume-zero] len(stateBytes) == 52 ==> forall(k, 0, 64, result0.core.emptyMessage[k] == 0)
+
+//@ func (Rand).Read
+//@ assigns arg0[:], obj(self)
